@@ -9,7 +9,7 @@ static void op_iter(int nt, char **t) {
     struct libwifi_tag_iterator it; memset(&it, 0, sizeof it);
     int r;
     LIB(r = libwifi_tag_iterator_init(&it, b, n));
-    if (r != 0) { printf("iter err"); __real_free(b); return; }
+    if (r != 0) { printf("iter err"); hfree(b); return; }
     printf("iter ok end=%td", it._frame_end - b);
     int steps = 0;
     int nx;
@@ -20,7 +20,7 @@ static void op_iter(int nt, char **t) {
         if (nx != -1 && nx != it.tag_header->tag_num) printf(" BADRET(%d)", nx);
         if (++steps > 100000) { printf(" RUNAWAY"); break; }
     } while (nx != -1);
-    __real_free(b);
+    hfree(b);
 }
 
 /* tagops <kind> <op>...   A:<num>:<hexbody>  R:<num>  S:<hexssid>  C:<ch>  K:<num>
@@ -41,7 +41,7 @@ static void op_tagops(int nt, char **t) {
             int num = (int) tok_ll(o + 2);
             size_t n; unsigned char *b = hexbuf(c2 + 1, &n);
             LIB(r = libwifi_quick_add_tag(tags, num, b, n));
-            __real_free(b);
+            hfree(b);
         } else if (o[0] == 'R') {
             LIB(r = libwifi_remove_tag(tags, (int) tok_ll(o + 2)));
         } else if (o[0] == 'K') {
@@ -50,7 +50,7 @@ static void op_tagops(int nt, char **t) {
             size_t n; unsigned char *b = hexbuf(o + 2, &n);
             char *z = __real_malloc(n + 1); memcpy(z, b, n); z[n] = 0;
             if (kind == 1) LIB(r = libwifi_set_probe_resp_ssid(&pr, z)); else LIB(r = libwifi_set_beacon_ssid(&bc, z));
-            __real_free(z); __real_free(b);
+            hfree(z); hfree(b);
         } else if (o[0] == 'C') {
             uint8_t ch = (uint8_t) tok_ll(o + 2);
             switch (kind) {
@@ -91,7 +91,7 @@ static void op_dumptag(int nt, char **t) {
         for (size_t i = r; i < bl; i++) touched |= buf[i] != 0xEE;
         if (touched) printf(" BEYOND");
     }
-    __real_free(buf); __real_free(body);
+    hfree(buf); hfree(body);
 }
 
 const struct op ops_tags[] = {
